@@ -131,13 +131,22 @@ Proof. intros k H. rewrite mem_name_app, H. reflexivity. Qed.
 Lemma grows_trans a b c : grows a b -> grows b c -> grows a c.
 Proof. intros H1 H2 k H. apply H2, H1, H. Qed.
 
+Lemma wf_has_decimal S : wf_styles S = true -> has S "decimal" = true.
+Proof. intros H. destruct (wf_decimal S H) as (d & _ & _ & _ & Hd & _). unfold has. rewrite Hd. reflexivity. Qed.
+
+(* extending an undefined style is extending decimal *)
+Lemma resolve_loop_unknown S f c sys pt : has S sys = false -> has S "decimal" = true ->
+  resolve_loop (Datatypes.S f) S c true sys pt = resolve_loop (Datatypes.S f) S c true "decimal" pt.
+Proof. intros H1 H2. cbn [resolve_loop negb]. rewrite H1, H2. reflexivity. Qed.
+
 Lemma resolve_loop_decimal S : wf_styles S = true -> forall fuel c pt,
   c_symbols c = None -> c_additive c = None ->
   exists c', resolve_loop (Datatypes.S fuel) S c true "decimal" pt = RLDone c' (pt ++ [CName "decimal"]) /\
              resolved_ok S c'.
 Proof.
   intros Hwf fuel c pt Hs Ha. destruct (wf_decimal S Hwf) as (d & s & fx & l & Hl & Hsys & -> & Hsym & Hlen & Hr).
-  cbn [resolve_loop negb]. rewrite Hl. rewrite sys_of_set_system, Hsys. cbn [s_ext s_name s_fixed andb].
+  cbn [resolve_loop negb]. rewrite (wf_has_decimal S Hwf). rewrite Hl. rewrite sys_of_set_system, Hsys.
+  cbn [s_ext s_name s_fixed andb].
   rewrite resolve_loop_plain. eexists. split; [reflexivity|]. left. rewrite <- Hsys. split.
   - rewrite sys_of_merge. unfold sys_of. rewrite Hsys. reflexivity.
   - rewrite adequate_merge_ext by assumption. apply (wf_lookup S "decimal" d Hwf Hl).
@@ -154,12 +163,14 @@ Proof.
     + exists c, pt. split; [reflexivity|]. split; [left; apply Hi0; reflexivity|apply grows_refl].
   - destruct ext.
     2:{ exists c, pt. split; [reflexivity|]. split; [left; apply Hi0; reflexivity|apply grows_refl]. }
-    destruct (Hi1 eq_refl) as (Hs & Ha & Hsys). cbn [resolve_loop negb].
+    destruct (Hi1 eq_refl) as (Hs & Ha & Hsys).
+    destruct (has S sys) eqn:Hhas.
+    2:{ rewrite (resolve_loop_unknown S fuel c sys pt Hhas (wf_has_decimal S Hwf)).
+        destruct (resolve_loop_decimal S Hwf fuel c pt Hs Ha) as (c' & -> & Hok).
+        exists c', (pt ++ [CName "decimal"]). split; [reflexivity|]. split; [exact Hok|apply grows_app]. }
+    cbn [resolve_loop negb]. rewrite Hhas.
     destruct (lookup sys S) as [ec|] eqn:Hl.
-    2:{ exists c, pt. split; [reflexivity|]. split; [|apply grows_refl]. right.
-        destruct Hsys as [->|Hsys].
-        - destruct (wf_decimal S Hwf) as (d & _ & _ & _ & Hd & _). rewrite Hd in Hl. discriminate.
-        - rewrite Hsys. cbn. auto. }
+    2:{ exfalso. unfold has in Hhas. rewrite Hl in Hhas. discriminate. }
     pose proof (wf_lookup S sys ec Hwf Hl) as Hec.
     rewrite sys_of_set_system.
     assert (Esys : match c_system ec with
@@ -298,9 +309,6 @@ Proof.
   destruct x; simpl; try reflexivity. rewrite String.eqb_sym. reflexivity.
 Qed.
 
-Lemma wf_has_decimal S : wf_styles S = true -> has S "decimal" = true.
-Proof. intros H. destruct (wf_decimal S H) as (d & _ & _ & _ & Hd & _). unfold has. rewrite Hd. reflexivity. Qed.
-
 Lemma loop_fuel_enough S pt : (missing S pt + 3 <= loop_fuel S)%nat.
 Proof. unfold loop_fuel. pose proof (missing_le S pt). lia. Qed.
 
@@ -317,28 +325,25 @@ Proof.
   { rewrite (wf_has_decimal S Hwf). cbn. auto. }
   pose proof (wf_lookup S n c0 Hwf Hl) as Hc0.
   destruct (sys_of c0) as [[ext sys] fx] eqn:Es0.
-  destruct (resolve_loop_ok S Hwf (loop_fuel S) c0 ext sys (orelse prev [] ++ [CName n])) as (c' & pt' & Hrun & Hok & Hg).
+  destruct (resolve_loop_ok S Hwf (loop_fuel S) c0 ext sys [CName n]) as (c' & et' & Hrun & Hok & _).
   { split.
     - intros ->. rewrite Es0. cbn. auto.
     - intros ->. assert (Hext : fst (fst (sys_of c0)) = true) by (rewrite Es0; reflexivity).
       destruct (adequate_ext_nosyms c0 Hc0 Hext) as [H1 H2]. repeat split; auto. right. rewrite Es0. reflexivity. }
   { right. right. apply loop_fuel_enough. }
   rewrite Hrun.
-  assert (Hn_pt' : mem_name n pt' = true).
-  { apply Hg. rewrite mem_name_app, mem_name_single, String.eqb_refl. apply orb_true_r. }
   assert (Hn_prev : mem_name n (orelse prev []) = false).
   { destruct prev as [l|]; [rewrite <- mem_cname_name; exact Hmem|reflexivity]. }
-  assert (Hg' : grows (orelse prev []) pt') by (eapply grows_trans; [apply grows_app|exact Hg]).
   destruct (sys_of c') as [[ext' sys'] fx'] eqn:Es'.
-  (* the list after the `system in previous_types` test and the append of counter_name *)
-  assert (Hfinal : forall l, (l = pt' \/ (l = [] /\ prev = None)) ->
+  (* the list handed to the fallback call: previous_types + [counter_name] (by resolve_counter) + [counter_name] *)
+  assert (Hfinal : forall l, grows (orelse prev []) l ->
                    step_quiet (match extend_loop (loop_fuel S) S c' ext' sys' fx' (l ++ [CName n]) with
                                | ELFuel => Done RFuel | ELDecimal => CallDecimal v
                                | ELOk c'' sys'' fx'' pt => render_resolved c'' sys'' fx'' pt v end) /\
                    step_decreases S (match extend_loop (loop_fuel S) S c' ext' sys' fx' (l ++ [CName n]) with
                                | ELFuel => Done RFuel | ELDecimal => CallDecimal v
                                | ELOk c'' sys'' fx'' pt => render_resolved c'' sys'' fx'' pt v end) (orelse prev [])).
-  { intros l Hlcase. destruct Hok as [[He Ha]|[He Hnone]]; rewrite Es' in *; cbn [fst snd] in *; subst ext'.
+  { intros l Hlg. destruct Hok as [[He Ha]|[He Hnone]]; rewrite Es' in *; cbn [fst snd] in *; subst ext'.
     - rewrite extend_loop_plain.
       assert (E1 : sys' = snd (fst (sys_of c'))) by (rewrite Es'; reflexivity).
       assert (E2 : fx' = snd (sys_of c')) by (rewrite Es'; reflexivity).
@@ -349,11 +354,11 @@ Proof.
       cbn in Hp. subst prev0.
       apply (missing_decr S (orelse prev []) (l ++ [CName n]) n c0 Hl Hn_prev).
       + rewrite mem_name_app, mem_name_single, String.eqb_refl. apply orb_true_r.
-      + destruct Hlcase as [->|[-> ->]]; [eapply grows_trans; [exact Hg'|apply grows_app]|intros k Hk; discriminate].
+      + eapply grows_trans; [exact Hlg|apply grows_app].
     - unfold loop_fuel. cbn [extend_loop negb]. rewrite Hnone. cbn. auto. }
   destruct prev as [l0|]; cbn [orelse] in *.
-  - destruct (mem_name sys' pt'); [cbn; auto|]. apply Hfinal. left. reflexivity.
-  - apply Hfinal. right. auto.
+  - apply Hfinal. apply grows_app.
+  - apply Hfinal. apply grows_refl.
 Qed.
 
 (* one activation, anonymous style (symbols(), string) *)
